@@ -217,6 +217,7 @@ type Envelope struct {
 	MapRows bool `json:"map_rows,omitempty"` // tables are handed over as []map[string]any instead of []any
 	Twice   bool `json:"twice,omitempty"`    // the query is executed twice on the same input object
 	Prior   bool `json:"prior,omitempty"`    // the same query text ran before, in this process, on a different document
+	Again   bool `json:"again,omitempty"`    // the constructed Query object is executed a second time
 	Side    Opts `json:"side,omitempty"`     // side-channel options (UnReportedErrors / CompletedCallback / WithVars / WithConstants)
 }
 
@@ -224,8 +225,8 @@ func genEnvelope(t *rapid.T, label string) Envelope {
 	if rapid.IntRange(0, 2).Draw(t, label+".plain") != 0 {
 		return Envelope{}
 	}
-	b := rapid.IntRange(1, 63).Draw(t, label+".bits")
-	e := Envelope{PG: b&1 != 0, Arrays: b&2 != 0, Wrapped: b&4 != 0, MapRows: b&8 != 0, Twice: b&16 != 0, Prior: b&32 != 0}
+	b := rapid.IntRange(1, 127).Draw(t, label+".bits")
+	e := Envelope{PG: b&1 != 0, Arrays: b&2 != 0, Wrapped: b&4 != 0, MapRows: b&8 != 0, Twice: b&16 != 0, Prior: b&32 != 0, Again: b&64 != 0}
 	if rapid.Bool().Draw(t, label+".side") {
 		sb := rapid.IntRange(1, 15).Draw(t, label+".sidebits")
 		e.Side = Opts{Unreported: sb&1 != 0, Callback: sb&2 != 0, Vars: sb&4 != 0, Consts: sb&8 != 0}
@@ -235,7 +236,7 @@ func genEnvelope(t *rapid.T, label string) Envelope {
 
 func (e Envelope) Labels() []string {
 	var l []string
-	for name, on := range map[string]bool{"envelope:PostgresEscapingDialect": e.PG, "envelope:IdiomaticArrays": e.Arrays, "envelope:Wrapped": e.Wrapped, "envelope:[]map-tables": e.MapRows, "envelope:executed-twice": e.Twice, "envelope:same-text-ran-before-on-other-document": e.Prior} {
+	for name, on := range map[string]bool{"envelope:PostgresEscapingDialect": e.PG, "envelope:IdiomaticArrays": e.Arrays, "envelope:Wrapped": e.Wrapped, "envelope:[]map-tables": e.MapRows, "envelope:executed-twice": e.Twice, "envelope:same-query-object-executed-again": e.Again, "envelope:same-text-ran-before-on-other-document": e.Prior} {
 		if on {
 			l = append(l, name)
 		}
@@ -287,7 +288,22 @@ func (e Envelope) Exec(doc map[string]any, sql string) Out {
 		// what a text returns depends on the document of the call at hand only: the outcome of this run is ignored
 		Run(priorDoc(doc), sql, o)
 	}
-	out := Run(doc, sql, o)
+	var out Out
+	if e.Again {
+		p := Build(doc, sql, o)
+		out = p.Exec()
+		if out.OK() {
+			again := p.Exec()
+			if !again.OK() {
+				return Out{Err: "second execution of the same Query object failed: " + again.Describe() + " (first: " + out.Describe() + ")"}
+			}
+			if !val.MultisetEqual(out.Rows, again.Rows) {
+				return Out{Err: "second execution of the same Query object returned " + val.JSON(again.Rows) + ", the first " + val.JSON(out.Rows)}
+			}
+		}
+	} else {
+		out = Run(doc, sql, o)
+	}
 	if e.Twice && out.OK() {
 		again := Run(doc, sql, o)
 		if !again.OK() {
